@@ -260,6 +260,26 @@ def entries():
     add('groupselectmin', 1, lambda s: etl.groupselectmin(s[0], 'k', 'v'), 'sorted')
     add('groupselectmax', 1, lambda s: etl.groupselectmax(s[0], 'k', 'v'), 'sorted')
     add('merge', 2, lambda s: etl.merge(s[0], s[1], key='k'), 'sorted')
+    # ---- presorted=True: the sort-backed operators become streaming merges / run detectors (laziness is judged on these;
+    #      the inputs need not be sorted for that)
+    P = S + ' drop presorted'
+    add('complement:presorted', 2, lambda s: etl.complement(s[0], s[1], presorted=True), P)
+    add('intersection:presorted', 2, lambda s: etl.intersection(s[0], s[1], presorted=True), P)
+    add('diff:presorted:added', 2, lambda s: etl.diff(s[0], s[1], presorted=True), P, pick=lambda p: p[0])
+    add('diff:presorted:subtracted', 2, lambda s: etl.diff(s[0], s[1], presorted=True), P, pick=lambda p: p[1])
+    for nm in ('join', 'leftjoin', 'rightjoin', 'outerjoin', 'antijoin', 'lookupjoin'):
+        add(nm + ':presorted', 2, (lambda f: lambda s: f(s[0], etl.rename(s[1], {'a': 'b', 'v': 'w'}), key='k',
+                                                          presorted=True))(getattr(etl, nm)), P)
+    add('duplicates:presorted', 1, lambda s: etl.duplicates(s[0], 'k', presorted=True), P)
+    add('unique:presorted', 1, lambda s: etl.unique(s[0], 'k', presorted=True), P)
+    add('conflicts:presorted', 1, lambda s: etl.conflicts(s[0], 'k', presorted=True), P)
+    add('distinct:presorted', 1, lambda s: etl.distinct(s[0], 'k', presorted=True), P)
+    add('aggregate:presorted', 1, lambda s: etl.aggregate(s[0], 'k', len, presorted=True), P)
+    add('aggregate:multi:presorted', 1, lambda s: etl.aggregate(s[0], 'k', [('n', len), ('s', 'v', sum)], presorted=True), P)
+    add('rowreduce:presorted', 1, lambda s: etl.rowreduce(s[0], 'k', z.REDUCER[0], header=['k', 'n'], presorted=True), P)
+    add('mergeduplicates:presorted', 1, lambda s: etl.mergeduplicates(s[0], 'k', presorted=True), P)
+    add('groupselectfirst:presorted', 1, lambda s: etl.groupselectfirst(s[0], 'k', presorted=True), P)
+    add('fold:presorted', 1, lambda s: etl.fold(s[0], 'k', z.FOLD2[1], 'v', presorted=True), P)
     add('fold', 1, lambda s: etl.fold(s[0], 'k', operator.add, 'v'), 'sorted')
     # ---- fills
     add('filldown', 1, lambda s: etl.filldown(s[0]), S)
